@@ -72,6 +72,7 @@ impl<'c, KD: Kind, const N: usize> MapEng<'c, KD, N> {
             }
             let mut yielded: Vec<Y> = Vec::with_capacity(n + 4);
             let mut hints: Vec<(usize, (usize, Option<usize>))> = Vec::with_capacity(n + 4);
+            let mut fault_in_drain_drop = false;
             let m = &mut slot.c.m;
             let mut d = m.drain();
             let mut ended = false;
@@ -117,12 +118,20 @@ impl<'c, KD: Kind, const N: usize> MapEng<'c, KD, N> {
                             break;
                         }
                     }
-                    for _ in 0..3 {
-                        let none = mmv_base::probe::ended_none(&mut d);
-                        cx.chk(P10, none, "not-fused", || "drain yielded an item after returning None".into());
+                    if ended {
+                        for _ in 0..3 {
+                            let none = mmv_base::probe::ended_none(&mut d);
+                            cx.chk(P10, none, "not-fused", || "drain yielded an item after returning None".into());
+                        }
+                        {
+                            // after the end the exact-size report is 0 (len(), size_hint()), not an underflowed cursor
+                            let h = mmv_base::probe::hint_of(&d);
+                            cx.chk(P10, h == (0, (0, Some(0))), "exact-len", || format!("after the end: len()={} size_hint={:?}", h.0, h.1));
+                        }
                     }
                     if let Err(p) = Self::lib(cx, move || drop(d)) {
                         fault |= unexpected(cx, liar, P10, &p);
+                        fault_in_drain_drop = p == Pk::Injected;
                     }
                 }
                 2 => {
@@ -142,6 +151,7 @@ impl<'c, KD: Kind, const N: usize> MapEng<'c, KD, N> {
                 0 => {
                     if let Err(p) = Self::lib(cx, move || drop(d)) {
                         fault |= unexpected(cx, liar, P10, &p);
+                        fault_in_drain_drop = p == Pk::Injected;
                     }
                 }
                 _ => {
@@ -192,6 +202,15 @@ impl<'c, KD: Kind, const N: usize> MapEng<'c, KD, N> {
                 if end == 1 && !fault {
                     cx.chk(P10, yielded.len() == n, "incomplete", || format!("drain run to the end yielded {} of {n} entries", yielded.len()));
                 }
+            }
+            if fault_in_drain_drop && !liar {
+                // an element's destructor panicked while the drain itself was being dropped: the
+                // drain *was* dropped, and "after drain() the container is empty ... no matter how
+                // much of the drain was consumed before it was dropped" (what was not destroyed
+                // may leak, it must not come back)
+                let post = Self::observe(&slot.c).unwrap_or_default();
+                let l = slot.c.m.len();
+                cx.chk(P10, post.is_empty() && l == 0, "drain-drop-panic", || format!("the drain was dropped (an element destructor panicked on the way), yet the map holds {} entries (len() = {l})", post.len()));
             }
             slot.model.clear();
             if end == 2 && !liar {
@@ -316,6 +335,11 @@ impl<'c, KD: Kind, const N: usize> MapEng<'c, KD, N> {
                         let none = mmv_base::probe::ended_none(&mut it);
                         cx.chk(P09, none, "not-fused", || format!("{} yielded an item after returning None", $name));
                     }
+                    {
+                        // after the end the exact-size report is 0 (len(), size_hint()), not an underflowed cursor
+                        let h = mmv_base::probe::hint_of(&it);
+                        cx.chk(P09, h == (0, (0, Some(0))), "exact-len", || format!("after the end: len()={} size_hint={:?}", h.0, h.1));
+                    }
                     let total = ys.len();
                     if let Some(cr) = &crest {
                         let rest = &ys[cut.min(total)..];
@@ -369,6 +393,11 @@ impl<'c, KD: Kind, const N: usize> MapEng<'c, KD, N> {
                     for _ in 0..3 {
                         let none = mmv_base::probe::ended_none(&mut it);
                         cx.chk(P09, none, "not-fused", || format!("{} yielded an item after returning None", $name));
+                    }
+                    {
+                        // after the end the exact-size report is 0 (len(), size_hint()), not an underflowed cursor
+                        let h = mmv_base::probe::hint_of(&it);
+                        cx.chk(P09, h == (0, (0, Some(0))), "exact-len", || format!("after the end: len()={} size_hint={:?}", h.0, h.1));
                     }
                     if let Some((at, out)) = &dbg {
                         // entries not yet yielded when the snapshot was taken (values before the write)
@@ -659,9 +688,16 @@ impl<'c, KD: Kind, const N: usize> MapEng<'c, KD, N> {
                                     break;
                                 }
                             }
-                            for _ in 0..3 {
-                                let none = mmv_base::probe::ended_none(&mut it);
-                                cx.chk(P10, none, "not-fused", || format!("{} yielded an item after returning None", $name));
+                            if ended {
+                                for _ in 0..3 {
+                                    let none = mmv_base::probe::ended_none(&mut it);
+                                    cx.chk(P10, none, "not-fused", || format!("{} yielded an item after returning None", $name));
+                                }
+                                {
+                                    // after the end the exact-size report is 0 (len(), size_hint()), not an underflowed cursor
+                                    let h = mmv_base::probe::hint_of(&it);
+                                    cx.chk(P10, h == (0, (0, Some(0))), "exact-len", || format!("after the end: len()={} size_hint={:?}", h.0, h.1));
+                                }
                             }
                             if let Err(p) = Self::lib(cx, move || drop(it)) {
                                 fault |= unexpected(cx, liar, P10, &p);
